@@ -271,7 +271,7 @@ func vfC33Opts(c vfC33Cfg) (w []oggwriter.WriterOption, t []oggwriter.TrackOptio
 func vfC33Vendor(c vfC33Cfg) string {
 	pad := make([]byte, max(c.VendorPad, 0))
 	for i := range pad {
-		pad[i] = 'v'
+		pad[i] = 'a' + byte((i*131+i>>8)%26) // not periodic in 255 or 65025: a page repeated or skipped changes the bytes
 	}
 	return *c.Vendor + string(pad)
 }
@@ -373,7 +373,7 @@ func vfC33Run(v *vfT, c vfC33Case) {
 		}
 		closeFn = w.Close
 	}
-	hasEmpty, bigPkt, multiPage, lacingEdge := false, false, false, false
+	hasEmpty, bigPkt, multiPage, lacingEdge, threePages := false, false, false, false, false
 	for i, p := range c.Pkts {
 		ti := p.Track % len(c.Tracks)
 		payload := vfC33Payload(p)
@@ -410,6 +410,9 @@ func vfC33Run(v *vfT, c vfC33Case) {
 		if len(payload)%255 == 0 {
 			lacingEdge = true
 		}
+		if len(payload) > 2*255*255 {
+			threePages = true
+		}
 	}
 	if err := closeFn(); err != nil {
 		v.Violation(cls("close"), "Close: %v", err)
@@ -437,6 +440,14 @@ func vfC33Run(v *vfT, c vfC33Case) {
 	}
 	if lacingEdge {
 		v.Label("packet-multiple-of-255")
+	}
+	for _, e := range exp {
+		if len(vfC33Tags(e)) > 2*255*255 {
+			threePages = true
+		}
+	}
+	if threePages {
+		v.Label("packet-spans-3+-pages")
 	}
 	total := 0
 	for _, e := range exp {
@@ -814,12 +825,29 @@ func vfC33Gen(v *vfT) vfC33Case {
 	for i := 0; i < np; i++ {
 		c.Pkts = append(c.Pkts, vfC33GenPkt(t, nt))
 	}
+	// rare size class (about 1 case in 30): one packet that needs three or more pages (> 2*255*255 bytes),
+	// as an audio packet or as an OpusTags packet with a very long vendor string
+	switch huge := rapid.IntRange(0, 59).Draw(t, "huge"); {
+	case huge == 0 || (huge == 1 && nt == 1 && c.Mode[0] == 's'):
+		p := vfC33GenPkt(t, nt)
+		p.TOC &^= 3 // code 0: one frame, always a valid packet
+		p.Len = rapid.OneOf(rapid.IntRange(130051, 200000), rapid.SampledFrom([]int{130050, 130051, 130052, 195075, 195076})).Draw(t, "hugelen")
+		at := rapid.IntRange(0, len(c.Pkts)).Draw(t, "hugeat")
+		c.Pkts = append(c.Pkts[:at], append([]vfC33Pkt{p}, c.Pkts[at:]...)...)
+	case huge == 1:
+		ti := rapid.IntRange(0, nt-1).Draw(t, "hugetrack")
+		if c.Tracks[ti].Cfg.Vendor == nil {
+			vd := "long"
+			c.Tracks[ti].Cfg.Vendor = &vd
+		}
+		c.Tracks[ti].Cfg.VendorPad = rapid.IntRange(130051, 199000).Draw(t, "hugevendor")
+	}
 	return c
 }
 
 func TestVerif_C33_Ogg(t *testing.T) {
 	vfProperty(t, "C33", vfOpts{
-		Rule: "writer mode in {OggWriter.NewWith, OggWriter.New(file), multi-track Writer plain, multi-track Writer with WithSeekableOutput}; 1..4 tracks with generated sample rate, channel count / channel mapping family 0,1,2,255, vendor (also > 255 bytes and > 65025 bytes) writer-level user comments through 0..3 separate WithUserComments options of 0..20 comments each and per-track vendor and comment options on most tracks ('=' in values, empty values), explicit or random serials; 0..30 Opus packets over all 32 TOC configs x code 0..3, code-3 frame counts around the 120 ms limit (incl. 0 and too many: must be refused or are skipped), sizes 1..1300 plus 254..256, 509..511, 765, 1275 and rarely 0, 64770, 65024..65026, 65280, 70000, interleaved over the tracks; non-trivial = at least two accepted data packets",
+		Rule: "writer mode in {OggWriter.NewWith, OggWriter.New(file), multi-track Writer plain, multi-track Writer with WithSeekableOutput}; 1..4 tracks with generated sample rate, channel count / channel mapping family 0,1,2,255, vendor (also > 255 bytes and > 65025 bytes) writer-level user comments through 0..3 separate WithUserComments options of 0..20 comments each and per-track vendor and comment options on most tracks ('=' in values, empty values), explicit or random serials; 0..30 Opus packets over all 32 TOC configs x code 0..3, code-3 frame counts around the 120 ms limit (incl. 0 and too many: must be refused or are skipped), sizes 1..1300 plus 254..256, 509..511, 765, 1275 and rarely 0, 64770, 65024..65026, 65280, 70000, and in about 1 case of 30 one audio packet or OpusTags vendor string of 130050..200000 bytes (three or more pages, content not periodic in 65025), interleaved over the tracks; non-trivial = at least two accepted data packets",
 		Assumptions: []string{
 			"RFC 3533 page layout and CRC, RFC 7845 header packets and RFC 6716 section 3.1 frame durations as implemented by the harness are the format definition",
 			"granule positions are compared on pages that complete a packet (and on payload-less pages); on a page that only continues a packet the value is counted, not asserted",
